@@ -103,6 +103,7 @@ Definition ds_var_rename_axis (k : string) (r : axref) (n : string) (s : dset) :
 Definition ds_set_dims (ns : list string) (s : dset) : dset * res unit :=
   if negb (List.length ns =? List.length (dsax s)) then (s, Err ValueError)
   else if negb (distinct_str ns) then (s, Err ValueError)
+  else if existsb (String.eqb "") ns then (s, Err ValueError)      (* all names are validated before any axis is renamed *)
   else fold_left (fun (acc : dset * res unit) p =>
                     match snd acc with
                     | Ok _ => rename_id (fst acc) (fst p) (snd p)
